@@ -14,6 +14,7 @@ import (
 	"crypto/rand"
 	"errors"
 	"fmt"
+	"net"
 	"sort"
 	"sync"
 	"testing/synctest"
@@ -28,6 +29,7 @@ import (
 	"github.com/libp2p/go-libp2p/p2p/host/eventbus"
 	"github.com/libp2p/go-libp2p/p2p/host/peerstore/pstoremem"
 	ma "github.com/multiformats/go-multiaddr"
+	madns "github.com/multiformats/go-multiaddr-dns"
 	manet "github.com/multiformats/go-multiaddr/net"
 )
 
@@ -88,7 +90,7 @@ func (t *c05Tpt) Dial(ctx context.Context, a ma.Multiaddr, p peer.ID) (transport
 func (t *c05Tpt) DialWithUpdates(ctx context.Context, a ma.Multiaddr, p peer.ID, upd chan<- transport.DialUpdate) (transport.CapableConn, error) {
 	h := t.h
 	h.mu.Lock()
-	id := h.addrID[string(a.Bytes())]
+	id := h.idOf(a)
 	pk := &c05Park{cmd: make(chan c05Cmd)}
 	h.parked[id] = pk
 	h.newDials = append(h.newDials, id)
@@ -217,6 +219,9 @@ type c05W struct {
 	newEnds   []int64
 	slowCancel bool
 	dialCount map[int64]int
+	// scripted DNS: what the names of the case resolve to
+	dnsIP  map[string][]net.IPAddr
+	dnsTXT map[string][]string
 
 	reqs    []*c05Req
 	line    []int64
@@ -236,6 +241,7 @@ func newC05Swarm() *c05W {
 		addrID: map[string]int64{}, addrs: map[int64]ma.Multiaddr{}, delays: map[string]time.Duration{},
 		order: map[string]int{}, parked: map[int64]*c05Park{}, dialCount: map[int64]int{},
 		line: []int64{2}, cov: map[string]bool{},
+		dnsIP: map[string][]net.IPAddr{}, dnsTXT: map[string][]string{},
 	}
 	priv, _, err := ic.GenerateEd25519Key(rand.Reader)
 	if err != nil {
@@ -249,7 +255,12 @@ func newC05Swarm() *c05W {
 	ps.AddPubKey(id, priv.GetPublic())
 	ps.AddPrivKey(id, priv)
 	h.gater = &c05Gater{}
+	rslv, err := madns.NewResolver(madns.WithDefaultResolver(&madns.MockResolver{IP: h.dnsIP, TXT: h.dnsTXT}))
+	if err != nil {
+		panic(err)
+	}
 	s, err := NewSwarm(id, ps, eventbus.NewBus(),
+		WithMultiaddrResolver(ResolverFromMaDNS{rslv}),
 		WithDialTimeout(time.Hour), WithDialTimeoutLocal(time.Hour),
 		WithUDPBlackHoleSuccessCounter(nil), WithIPv6BlackHoleSuccessCounter(nil),
 		WithConnectionGater(h.gater),
@@ -317,6 +328,18 @@ func (h *c05W) addr(id int64, kind int) ma.Multiaddr {
 	h.addrs[id] = a
 	h.addrID[string(a.Bytes())] = id
 	return a
+}
+
+// the number of an address as the transports and the ranker see it; a trailing /p2p/<peer>
+// component does not make a different address
+func (h *c05W) idOf(a ma.Multiaddr) int64 {
+	if id, _ := peer.IDFromP2PAddr(a); id == h.p {
+		a, _ = ma.SplitLast(a)
+	}
+	if a == nil {
+		return 0
+	}
+	return h.addrID[string(a.Bytes())]
 }
 
 func (h *c05W) observe() {
@@ -453,7 +476,7 @@ func (h *c05W) request(rid int64, sim, fdir bool, ids []int64, kinds []int, dela
 	}
 	h.line = append(h.line, 1, rid, b(sim), b(fdir), ok, int64(len(rk)))
 	for _, e := range rk {
-		h.line = append(h.line, h.addrID[string(e.Addr.Bytes())], int64(e.Delay))
+		h.line = append(h.line, h.idOf(e.Addr), int64(e.Delay))
 	}
 	h.observe()
 	if ok == 0 {
